@@ -1,9 +1,10 @@
 (* C11: byte offset -> (line, column).
    (1) the specification [lc_line_col];
-   (2) the function the code implements today: SourceFile::get_line_column
-       (crates/apollo-compiler/src/parser.rs) = ariadne 0.6.0 Source::from + Source::get_byte_line
-       (src/source.rs), modelled literally ([lc_split_inclusive], [lc_merge_lines], [lc_get_byte_line]);
-   (3) the three classes of (text, offset) on which (2) differs from (1)  (finding D9).
+   (2) the function the code implements: SourceFile::get_line_column (crates/apollo-compiler/src/parser.rs),
+       since commit 7d9a6a9 one scan over text.char_indices() ([lc_new_loop], [lc_impl_line_col]);
+   (2') what it did before that commit: ariadne 0.6.0 Source::from + Source::get_byte_line (src/source.rs),
+       modelled literally ([lc_split_inclusive], [lc_merge_lines], [lc_get_byte_line], [lc_impl_line_col_old]);
+   (3) the three classes of (text, offset) on which (2') differs from (1)  (finding D9, fixed by 7d9a6a9).
    Definitions only; proofs are in LineColProofs.v. *)
 From ApolloVerif Require Import Base.Chars.
 
@@ -34,7 +35,7 @@ Fixpoint lc_scan (s : str) (off line col : N) : option (N * N) :=
 
 Definition lc_line_col (s : str) (off : N) : option (N * N) := lc_scan s off 1 1.
 
-(* ------------------------------------------------------------------ (2) the code
+(* ------------------------------------------------------------------ (2') the code before 7d9a6a9
 
    ariadne::Source::from: SEPARATORS = ['\r', '\n', '\x0B', '\x0C', '\u{0085}', '\u{2028}', '\u{2029}'] *)
 Definition lc_is_ariadne_sep (c : N) : bool :=
@@ -108,12 +109,52 @@ Definition lc_get_byte_line (lines : list (N * N)) (off : N) : lcres :=
     end
   else LcNone.
 
-(* SourceFile::get_line_column *)
-Definition lc_impl_line_col (s : str) (off : N) : lcres :=
+(* SourceFile::get_line_column before 7d9a6a9 *)
+Definition lc_impl_line_col_old (s : str) (off : N) : lcres :=
   match lc_get_byte_line (lc_source_lines s) off with
   | LcSome l c => LcSome (l + 1) (c + 1)
   | r => r
   end.
+
+(* ------------------------------------------------------------------ (2) the code
+
+   SourceFile::get_line_column:
+     if offset > text.len() { return None }
+     let (mut line, mut column) = (1, 1); let mut chars = text.char_indices().peekable();
+     while let Some((index, c)) = chars.next() {
+         if offset < index + c.len_utf8() { break }
+         match c {
+             '\r' if matches!(chars.peek(), Some((_, '\n'))) => {
+                 if offset == index + 1 { column += 1; break }
+                 chars.next(); line += 1; column = 1;
+             }
+             '\n' | '\r' => { line += 1; column = 1 }
+             _ => column += 1,
+         }
+     }
+   [chars] is the rest of char_indices(), [index] the byte index of its first character. *)
+Fixpoint lc_new_loop (chars : str) (index offset line column : N) : N * N :=
+  match chars with
+  | [] => (line, column)
+  | c :: r =>
+      if offset <? index + u8len c then (line, column)
+      else
+        match r with
+        | c2 :: r2 =>
+            if (c =? c_cr) && (c2 =? c_lf) then
+              if offset =? index + 1 then (line, column + 1)
+              else lc_new_loop r2 (index + u8len c + u8len c2) offset (line + 1) 1
+            else if (c =? c_lf) || (c =? c_cr) then lc_new_loop r (index + u8len c) offset (line + 1) 1
+            else lc_new_loop r (index + u8len c) offset line (column + 1)
+        | [] =>
+            if (c =? c_lf) || (c =? c_cr) then lc_new_loop r (index + u8len c) offset (line + 1) 1
+            else lc_new_loop r (index + u8len c) offset line (column + 1)
+        end
+  end.
+
+Definition lc_impl_line_col (s : str) (off : N) : lcres :=
+  if blen s <? off then LcNone
+  else let '(l, c) := lc_new_loop s 0 off 1 1 in LcSome l c.
 
 (* SourceFile::get_line_column_range / SourceSpan::line_column_range *)
 Definition lc_impl_range (s : str) (a b : N) : option ((N * N) * (N * N)) :=
@@ -166,12 +207,12 @@ Definition lc_k_eof (s : str) (off : N) : bool :=
 
 Definition lc_known_c11 (s : str) (off : N) : bool := lc_k_sep s off || lc_k_col s off || lc_k_eof s off.
 
-(* ------------------------------------------------------------------ one-pass form of (2)
+(* ------------------------------------------------------------------ one-pass form of (2')
 
    What lc_get_byte_line computes from the line table, as a single scan in the shape of [lc_scan]
-   (LineColProofs.impl_line_col_scan proves the two equal): separators are ariadne's, the column counts
+   (LineColProofs.impl_line_col_old_scan proves the two equal): separators are ariadne's, the column counts
    bytes, and a separator that ends the text does not open a new line. *)
-Fixpoint lc_impl_scan (s : str) (off line col : N) : option (N * N) :=
+Fixpoint lc_impl_scan_old (s : str) (off line col : N) : option (N * N) :=
   match s with
   | [] => if off =? 0 then Some (line, col) else None
   | c :: r =>
@@ -183,15 +224,15 @@ Fixpoint lc_impl_scan (s : str) (off line col : N) : option (N * N) :=
               if off =? 1 then Some (line, col + 1)
               else match r2 with
                    | [] => if off =? 2 then Some (line, col + 2) else None
-                   | _ => lc_impl_scan r2 (off - 2) (line + 1) 1
+                   | _ => lc_impl_scan_old r2 (off - 2) (line + 1) 1
                    end
-            else lc_impl_scan r (off - 1) (line + 1) 1
+            else lc_impl_scan_old r (off - 1) (line + 1) 1
         | [] => if off =? 1 then Some (line, col + 1) else None
         end
       else if lc_is_ariadne_sep c then
         match r with
         | [] => if off =? u8len c then Some (line, col + off) else None
-        | _ => lc_impl_scan r (off - u8len c) (line + 1) 1
+        | _ => lc_impl_scan_old r (off - u8len c) (line + 1) 1
         end
-      else lc_impl_scan r (off - u8len c) line (col + u8len c)
+      else lc_impl_scan_old r (off - u8len c) line (col + u8len c)
   end.
